@@ -27,7 +27,7 @@ import (
 
 // c19QuickFraction is the share of accepted shapes that the quick tier takes
 // through phase B (PRNG-chosen). 1 means all of them.
-const c19QuickFraction = 0.3
+const c19QuickFraction = 1.0
 
 type c19Wit struct {
 	Seg     [3]uint8 `json:"seg"`
@@ -614,9 +614,6 @@ func checkC19(r *mon.Run) {
 	if os.Getenv("WIRE_GC_EXPERIMENT") == "" {
 		defer debug.SetGCPercent(debug.SetGCPercent(1600))
 	}
-	if os.Getenv("WIRE_C19_ONLY_A") != "" {
-		defer os.Exit(0)
-	}
 	// ---- phase A: the complete 2^26 space, RSV = 0 ----
 	t0 := time.Now() // reporting only, never part of a verdict
 	runTasks(r, 64*64, func(t int, a *acc) {
@@ -624,6 +621,10 @@ func checkC19(r *mon.Run) {
 	})
 	r.Extra("meta_headers_enumerated", 1<<26)
 	r.Extra("phase_a_wall_s", time.Since(t0).Seconds())
+	if os.Getenv("WIRE_C19_ONLY_A") != "" { // diagnostic
+		fmt.Println("phase A wall", time.Since(t0))
+		os.Exit(0)
+	}
 
 	// ---- phase A2: reserved bits toggled ----
 	rsvRounds := r.Pick(1, 8)
